@@ -171,7 +171,7 @@ def run_one(job):
         if p.returncode != 0:
             return {"mutant": name, "result": "killed-by-tests"}
         for c in FILES[rel]:
-            env2 = dict(os.environ, VERIF_REPO=tmp, VERIF_SKIP_REPLAYS="1", VERIF_EVIDENCE_DIR=os.path.join(tmp, ".ev"), VERIF_SEED="1")
+            env2 = dict(os.environ, VERIF_REPO=tmp, VERIF_SKIP_REPLAYS="1", VERIF_MAX_ROUNDS="1", VERIF_EVIDENCE_DIR=os.path.join(tmp, ".ev"), VERIF_SEED="1")
             try:
                 q = subprocess.run([os.path.join(ROOT, "check"), c, "--tier", "quick"], env=env2, stdout=subprocess.PIPE, stderr=subprocess.STDOUT, text=True, timeout=1500)
             except subprocess.TimeoutExpired:
